@@ -146,6 +146,15 @@ Relabel ==
     /\ Check("C06:relabel_density_over_a", Near(e.gxx * e.an, r.gxx * e.ad, 2 * (e.an + e.ad)))
     /\ Check("C06:relabel_coherence_unchanged", Near(e.coh, r.coh, 4))
 
+(* the same for an arbitrary real factor (the recorder has divided it out): the plan and every normalised field are those of the reference *)
+RelabelX ==
+    LET e == Ev  r == Ref(e.j) IN
+    /\ Check("C06:relabel_keeps_the_segmentation", e.L = e.Lref /\ e.K = e.Kref)
+    /\ Check("C06:relabel_frequency_times_a", Near(e.fq, r.fq, 2))
+    /\ Check("C06:relabel_enbw_times_a", Near(e.enbw, r.enbw, 2))
+    /\ Check("C06:relabel_density_over_a", Near(e.gxx, r.gxx, 4) /\ Near(e.gyy, r.gyy, 4))
+    /\ Check("C06:relabel_coherence_unchanged", Near(e.coh, r.coh, 4))
+
 (* ENBW = fs*sum(w^2)/(sum w)^2 : enbw (in units of fs/L, Q20) vs the captured window sums *)
 Enbw ==
     LET e == Ev IN Check("C06:enbw_is_fs_S2_over_S12", Near(e.enbwq, e.enbwx, 4))
@@ -203,12 +212,14 @@ Step ==
          [] Ev.t = "scale" -> Scale
          [] Ev.t = "relabel" -> Relabel
          [] Ev.t = "tiny" -> Tiny
+         [] Ev.t = "relabelx" -> RelabelX
          [] Ev.t = "enbw" -> Enbw
          [] Ev.t = "refbin" -> RefBin
          [] Ev.t = "winsum" -> WinSum
          [] Ev.t = "sine" -> Sine
          [] Ev.t = "single" -> Single
          [] Ev.t = "errs" -> Errs
+         [] Ev.t = "shape" -> Check("ANY:variant_analysis_has_the_same_bins", Ev.nf = Ev.ref)   \* swapped / rescaled / relabelled records: same plan
          [] Ev.t = "gain" -> Gain
          [] Ev.t = "delay" -> Delay
     /\ l' = l + 1 /\ UNCHANGED tid
